@@ -290,15 +290,17 @@ pub fn rc2_grid(tier: Tier) -> Vec<Case> {
 pub fn wblock_cases(tier: Tier) -> Vec<Case> {
     let mut lens: Vec<usize> = (0..=if tier == Tier::Quick { 160 } else { 1024 }).collect();
     lens.push(4096);
+    lens.push(65537); // beyond 16-bit lengths / round counters
     if tier == Tier::Thorough {
-        lens.extend([4095, 65537]);
+        lens.extend([4095, 65536, 131073]);
     }
     let mut v = Vec::new();
     for len in lens {
-        let ndv = if len > 8192 { 3 } else { 3 + 8 };
-        let nkv = if len < 32 { 2 } else { al::t_set(32, 1).len() as u8 };
-        for dv in 0..ndv {
-            for kv in 0..nkv {
+        let long = len > 8192;
+        let dvs: Vec<u8> = if long { if tier == Tier::Quick { vec![3] } else { vec![2, 3, 5] } } else { (0..11).collect() };
+        let kvs: Vec<u8> = if len < 32 { vec![0, 1] } else if long { if tier == Tier::Quick { vec![3] } else { vec![3, 4] } } else { (0..al::t_set(32, 1).len() as u8).collect() };
+        for &dv in &dvs {
+            for &kv in &kvs {
                 v.push(Case::Wblock { len, dv, kv });
             }
         }
